@@ -383,13 +383,8 @@ def init_size_relation(ck, rule):
                 asg = guard_assignment(pf.guards, rename=IDENT)
                 try:
                     t = _T(st.value, BOOLS).subst(asg)
-                    # signedness in force when the value is derived
-                    sgexpr = None
-                    for k_, o in pf.order:
-                        if k_ == "store" and o is st:
-                            break
-                        if k_ == "store" and o.path == "self.signed":
-                            sgexpr = o.value
+                    # signedness of the format in force when the function returns
+                    sgexpr = pf.env.get("self.signed")
                     sg = mkbool(sgexpr, rename=IDENT, bool_names=BOOLS) if sgexpr is not None else Term.bvar("self.signed")
                     sg = sg.subst(asg)
                 except NotATerm as e:
@@ -580,3 +575,75 @@ def word_max_chain(ck, rule):
             ck.check(dotted(v) == "n_word_max", rule, isz, "_init_size forwards n_word_max to set_best_sizes", "n_word_max=%s" % (src(v) if v is not None else None), c)
             v = kw(c, "raw")
             ck.check(dotted(v) == "raw", rule, isz, "_init_size forwards raw to set_best_sizes", "raw=%s" % (src(v) if v is not None else None), c, nontrivial=False)
+
+
+def returned_sizes_are_callers(ck, rule):
+    """C06.R5: the sizes the normaliser hands back (return_sizes=True) are the sizes the caller gave - self.signed / self.n_word / self.n_frac as they
+    were on entry - for every non-string input; utils.str2num passes its size arguments through unchanged for non-string values.  (set_best_sizes takes a
+    returned size that is not None for 'given' and skips the search for it.)"""
+    prog = ck.prog
+    from ..common import infeasible
+    fm = A.normaliser(prog)
+    pfs = fpaths(prog, fm)
+    ck.saw(fm, paths=len(pfs))
+    n_ok = 0
+    seen = set()
+    for pf in pfs:
+        if pf.end != "return" or pf.ret is None or not isinstance(pf.ret, ast.Tuple) or len(pf.ret.elts) != 6:
+            continue
+        # string routes legitimately take sizes from the parsed text; Decimal inputs derive n_frac from the decimal context's precision
+        if any(isinstance(c.raw.func, ast.Attribute) and c.raw.func.attr == "str2num" for c in pf.calls):
+            continue
+        from ..common import path_literals as _pl
+        if any(isinstance(t, ast.Call) and dotted(t.func) == "isinstance" and len(t.args) == 2 and dotted(t.args[1]) == "Decimal" and pol for t, pol in _pl(pf.guards)):
+            continue
+        for i, attr in ((3, "self.signed"), (4, "self.n_word"), (5, "self.n_frac")):
+            e = pf.ret.elts[i]
+            if dotted(e) != attr:
+                k = (attr, src(e)[:60])
+                if k not in seen:
+                    seen.add(k)
+                    ck.bad(rule, fm, "for numeric and fixed-point inputs the normaliser reports the caller's own sizes (None = to be inferred)", "returns %s = %s" % (attr.split(".")[1], src(e)[:60]), pf.ret_stmt,
+                           "a size taken from the value (e.g. from a source Fxp) is mistaken for a size the caller fixed: the minimal-format search is skipped")
+        n_ok += 1
+    if not seen:
+        ck.ok(rule, fm, "on all %d non-string returning paths the reported sizes are self.signed / self.n_word / self.n_frac as given" % n_ok)
+    f = prog.func("utils.str2num")
+    for pf in fpaths(prog, f):
+        if pf.end != "return" or pf.ret is None or not isinstance(pf.ret, ast.Tuple):
+            continue
+        from ..common import isinstance_state, path_literals
+        is_str = is_seq = None
+        for t, pol in path_literals(pf.guards):
+            if isinstance(t, ast.Call) and dotted(t.func) == "isinstance" and len(t.args) == 2 and dotted(t.args[0]) == "x":
+                ts = [dotted(x) for x in (t.args[1].elts if isinstance(t.args[1], ast.Tuple) else [t.args[1]])]
+                if "str" in ts:
+                    is_str = pol
+                if "list" in ts or "tuple" in ts:
+                    is_seq = pol
+        if is_str is False and is_seq is False:
+            got = [dotted(e) for e in pf.ret.elts]
+            ck.check(got[1:4] == ["signed", "n_word", "n_frac"] and got[0] == "x", rule, f, "str2num passes a non-string value and the size arguments through unchanged",
+                     "returns %s" % got, pf.ret_stmt, "a numeric element of a list would fix a size (e.g. n_frac = 0 for an int) and pre-empt the inference over the whole list")
+
+
+def no_size_rejection(ck, rule):
+    """C07.R7 / C02: the size initialiser and resize accept every integer size: no raise is guarded by a comparison of n_int / n_frac / n_word with a constant
+    (negative integer or fraction lengths are legitimate formats, e.g. results of the growth rules)."""
+    prog = ck.prog
+    from ..common import path_literals
+    for q in ("objects.Fxp._init_size", "objects.Fxp.resize", "objects.Fxp.__init__"):
+        f = prog.func(q)
+        for pf in fpaths(prog, f):
+            if pf.end != "raise" or pf.ret_stmt is None:
+                continue
+            depth0 = True
+            for t, pol in path_literals([g for g in pf.guards if g[3] is not None][-3:]):
+                if isinstance(t, ast.Compare) and len(t.ops) == 1 and isinstance(t.ops[0], (ast.Lt, ast.LtE, ast.Gt, ast.GtE)):
+                    names = {dotted(x) for x in [t.left] + list(t.comparators)}
+                    consts = [x for x in [t.left] + list(t.comparators) if isinstance(x, ast.Constant) and isinstance(x.value, int)]
+                    if names & {"n_int", "n_frac", "n_word", "self.n_int", "self.n_frac"} and consts:
+                        ck.bad(rule, f, "every integer size is accepted (negative n_int / n_frac are legitimate formats)", "raise guarded by %s" % src(t), pf.ret_stmt,
+                               "operations whose growth rule yields such a size would raise instead of returning the exact result")
+        ck.saw(f)
+    ck.ok(rule, "objects.Fxp._init_size / resize", "no raise is guarded by a range test on n_int / n_frac / n_word", nontrivial=False)
